@@ -95,10 +95,20 @@ func newValueTable(c *core.Ctx) (map[string]*ssa.Function, token.Pos) {
 		return out, pos
 	}
 	pos = fd.Pos()
+	root := c.Func("type/value", "", "NewValue")
 	for _, e := range dispatchTable(p, fd) {
-		if e.Target != nil {
+		switch {
+		case e.Target != nil:
 			out[e.Key] = c.Prog.FuncValue(e.Target)
-		} else {
+		case e.LitPos.IsValid() && root != nil:
+			// a constructor written as a function literal in the table
+			out[e.Key] = nil
+			for _, lit := range core.AnonFuncs(root) {
+				if lit != root && lit.Pos() == e.LitPos {
+					out[e.Key] = lit
+				}
+			}
+		default:
 			out[e.Key] = nil
 		}
 	}
